@@ -771,7 +771,8 @@ for _r in ('R1-1', 'R1-2', 'R1-3', 'R1-4', 'R2-1', 'R2-2', 'R2-3', 'R2-4', 'R3-1
            'R33-1', 'R33-2', 'R33-3', 'R33-4',
            'R34-1', 'R34-2', 'R34-3', 'R35-1', 'R35-2', 'R35-3', 'R36-1', 'R36-2', 'R36-3',
            'R38-1', 'R38-2', 'R38-3', 'R38-4', 'R39-1', 'R39-2', 'R39-3', 'R39-4', 'R40-1', 'R40-2', 'R40-3', 'R40-4',
-           'R41-1', 'R41-2', 'R41-3', 'R41-4'):
+           'R41-1', 'R41-2', 'R41-3', 'R41-4',
+           'R43-1', 'R43-2', 'R43-3', 'R43-4', 'R44-1', 'R44-2', 'R44-3', 'R44-4', 'R45-1', 'R45-2', 'R45-3', 'R45-4'):
     CORPUS.append({'id': 'S/' + _r + '-silent', 'props': ALL_PROPS, 'rule': None, 'expect': 'silent', 'edits': [],
                    'patch': 'seeded_benign/%s/patch.diff' % _r, 'tolerate_rekeyed': True})
 
@@ -1027,3 +1028,27 @@ CORPUS.append({'id': 'S/R37-3-silent', 'props': ['C06', 'C07', 'C01', 'C15', 'C1
                'patch': 'seeded_benign/R37-3/patch.diff'})
 # the never-reduced alternative behind known finding K3 removed (a clean-up): the conflict and the finding go away, nothing else changes
 B('c06-gm-arglist-def-name-dropped', ['C06', 'C15'], RUL, '    """ arglist_def : arglist COMMA NAME\n                    | NAME\n    """', '    """ arglist_def : arglist COMMA NAME\n    """')
+
+# round 12 ("modernise syntax, no functional change": codemod-style rewrites one of which is not equivalent, U/V; C13 was not
+# delivered).  Not reported by any rule: C07-U (string escapes decoded in one re.sub pass), C17-V (__slots__ without __weakref__:
+# only a WeakValueDictionary as cache notices), C08-U (the function table built with a dict comprehension over a loop variable
+# that the lambdas bind late: 13 checks stop with ANALYSIS-ERROR because the table is no longer a literal).
+P('C01-U', 'C01', 'C01.R6'); P('C01-V', 'C01', 'C01.R8')
+P('C02-U', 'C02', 'C02.R2'); P('C02-V', 'C02', 'C02.R5')
+P('C03-U', 'C03', 'C03.R6'); P('C03-V', 'C02', 'C02.R4')
+P('C04-U', 'C06', 'C06.R9'); P('C04-V', 'C04', 'C04.R2')
+P('C05-U', 'C02', 'C02.R3'); P('C05-V', 'C05', 'C05.R1')
+P('C06-U', 'C06', 'C06.R7'); P('C06-V', 'C04', 'C04.R4')
+P('C07-V', 'C06', 'C06.R2')
+P('C08-V', 'C07', 'C07.R1')
+P('C09-U', 'C09', 'C09.R1'); P('C09-V', 'C06', 'C06.R1')
+P('C10-U', 'C10', 'C10.R1'); P('C10-V', 'C18', 'C18.R5')
+P('C11-U', 'C15', 'C15.R1'); P('C11-V', 'C11', 'C11.R1')
+P('C12-U', 'C02', 'C02.R2'); P('C12-V', 'C12', 'C12.R1')
+P('C14-U', 'C07', 'C07.R6'); P('C14-V', 'C14', 'C14.R3')
+P('C15-U', 'C15', 'C15.R6'); P('C15-V', 'C15', 'C15.R6')
+P('C16-U', 'C15', 'C15.R1'); P('C16-V', 'C10', 'C10.R1')
+P('C17-U', 'C17', 'C17.R2')
+P('C18-U', 'C06', 'C06.R7'); P('C18-V', 'C11', 'C11.R1')
+P('C19-U', 'C19', 'C19.R1'); P('C19-V', 'C02', 'C02.R1')
+P('C20-U', 'C20', 'C20.R1'); P('C20-V', 'C15', 'C15.R7')
